@@ -80,6 +80,7 @@ def calls_in_tree(tree, path):
 
 
 KINDS = [(5, "truncate"), (3, "truncate-in-construct"), (2, "splice"), (2, "drop-end"), (1, "dup-end"), (1, "drop-contains"), (1, "dup-contains"),
+         (3, "drop-procedure"),
          (2, "swap-keyword"), (3, "junk"), (1, "bytes"), (1, "empty"), (1, "truncate-midline")]
 SWAPS = [("subroutine", "function"), ("module", "program"), ("function", "subroutine"), ("type", "interface"),
          ("interface", "type"), ("program", "module"), ("submodule", "module"), ("associate", "block")]
@@ -121,6 +122,22 @@ def corrupt(plan, texts, cut=None):
         return "\n".join(lines[:k]) + "\n", kind
     if kind == "truncate-midline":
         return src[: at(len(src), plan["a"])], kind
+    if kind == "drop-procedure":
+        # remove a whole procedure definition: bindings, generic interfaces, finalisers and calls that name it dangle
+        # (the file usually still parses)
+        starts = []
+        for i, l in enumerate(lines):
+            m_ = re.match(r"^\s*(?:[\w()*=]+\s+)*(subroutine|function)\s+(\w+)", l, re.I)
+            if m_ and not re.match(r"^\s*end", l, re.I):
+                word, name = m_.group(1).lower(), m_.group(2)
+                for j in range(i + 1, len(lines)):
+                    if re.match(rf"^\s*end\s*{word}\s+{re.escape(name)}\s*(!.*)?$", lines[j], re.I):
+                        starts.append((i, j))
+                        break
+        if starts:
+            i, j = starts[plan["a"] % len(starts)]
+            return "\n".join(lines[:i] + lines[j + 1:]) + "\n", kind
+        kind = "splice"
     if kind == "splice":
         other = texts[plan["src2"] % len(texts)].split("\n")
         return "\n".join(lines[: at(len(lines), plan["a"])] + other[at(len(other), plan["b"]):]) + "\n", kind
@@ -185,8 +202,10 @@ def gen_case(ch: Chooser, excl=()):
     order = [n for _, n in sorted(zip(order_key + [0] * len(names), names), key=lambda t: (t[0], t[1]))]
     if bad_first:
         order = sorted(bad) + [n for n in order if n not in bad]
-    return {"P": P, "bad": bad, "order": order,
-            "classes": ["P:" + pk, "B:" + bk] + ["corrupt:" + k for k in kinds] + (["leak-probe"] if probe else []),
+    full_site = plans[0]["b"] % 6 == 0       # a sample of the cases also renders the whole site
+    return {"P": P, "bad": bad, "order": order, "site": full_site,
+            "classes": ["P:" + pk, "B:" + bk] + ["corrupt:" + k for k in kinds] + (["leak-probe"] if probe else []) +
+                       (["full-site"] if full_site else []),
             "nfilesP": len(P), "P_calls": [[r["scope"], r["expect"]] for r in P_refs]}
 
 
@@ -305,6 +324,30 @@ def _check(case) -> Result:
         res.fail("run-aborted:" + fordapi.exception_signature(e),
                  f"{type(e).__name__}: {str(e)[:300]} with corrupt file(s) {sorted(bad)}")
         return res
+    if case.get("site"):
+        # the pages must be written as well, whatever the corrupt files left behind in the entity tree
+        from vfw import site as _site
+        sfiles = dict(files)
+        sfiles["project.md"] = _site.project_file({"project": "P", "src_dir": "./src", "preprocess": False, "parallel": 0,
+                                                   "search": False})
+        old = signal.signal(signal.SIGALRM, _alarm)
+        signal.alarm(WATCHDOG_S)
+        try:
+            with fordapi.Sandbox(sfiles, prefix="vfw-c20s-") as sroot:
+                _site.build_site(sroot)
+                res.evaluations += 1
+                if not (sroot / "doc" / "index.html").exists():
+                    res.fail("site-not-written", "no index.html although the valid files were parsed")
+        except Timeout:
+            res.fail("hang", f"site build: no result after {WATCHDOG_S} s with corrupt file(s) {sorted(bad)}")
+        except SystemExit as e:
+            res.fail("site-aborted:SystemExit", f"site build ended with SystemExit({str(e)[:200]}) with corrupt file(s) {sorted(bad)}")
+        except Exception as e:
+            res.fail("site-aborted:" + fordapi.exception_signature(e),
+                     f"site build: {type(e).__name__}: {str(e)[:300]} with corrupt file(s) {sorted(bad)}")
+        finally:
+            signal.alarm(0)
+            signal.signal(signal.SIGALRM, old)
     rejected = [b for b in bad if b not in reg1]
     accepted = [b for b in bad if b in reg1]
     res.classes += ["rejected"] * len(rejected) + ["accepted"] * len(accepted)
